@@ -5,7 +5,9 @@
 From LV Require Import Base.Bytes Model.Obj Model.DocQ Model.PageTree Model.Traverse Model.Edit
   Spec.RenumberSpec Spec.AbstractDoc Proofs.EditProofs Proofs.EditProofsEx Proofs.EditProofsTrav
   Proofs.EditProofsDelete Proofs.EditProofsKF Proofs.EditProofsContent Model.EditV0 Model.Renumber
-  Proofs.EditProofsBm Proofs.EditProofsOutline.
+  Proofs.EditProofsBm Proofs.EditProofsOutline Proofs.EditProofsContent2 Proofs.EditProofsDecode Proofs.EditProofsRes
+  Proofs.EditProofsEx2 Model.StreamFilt.
+From LV Require Proofs.FilterProofsDict.
 From LV Require Model.Outline Spec.OutlineSpec Proofs.OutlineProofs.
 
 (* ------------------------------------------------------------------------------------------ *)
@@ -213,7 +215,7 @@ Proof. exact content_indirect_witness. Qed.
    -- [plain_contents]): for every stream decoder, every document satisfying the allocation invariant and every
    content, the call succeeds, the abstract page then shows its old content followed by what the new stream
    decodes to, every other plain page shows what it showed before, and the trailer is unchanged.
-   (change_page_content and the resource operations: not yet proved in general -- harness verdicts + correspondence.) *)
+   (change_page_content, change_content_stream, add_to_page_content and the resource operations: further down.) *)
 Theorem C11_add_page_contents_content :
   forall (decode : dict -> bytes -> bytes) d page pd c,
     doc_wf d -> alloc_ok d -> (d_max_id d < U32_MAX)%N ->
@@ -234,6 +236,135 @@ Theorem C11_content_example_partial :
              page_content decode0 (d_objects d') (3, 0)%N = Some (bs "q Q" ++ bs "BT ET") /\
              page_content decode0 (d_objects d') (4, 0)%N = Some (bs "q Q").
 Proof. exact content_ok_example. Qed.
+
+(* ------------------------------------------------------------------------------------------ *)
+(* I_content for the other content operations, on plain pages (direct dictionary objects; the complement of the class
+   C11-content-indirect).  [decode] is any stream decoder; [unshared pd qd]: page qd does not name the stream that
+   change_page_content rewrites in place for page pd (naming it is the class C11-content-shared). *)
+
+(* change_content_stream: nothing but the named object changes, and only when it is a stream; it becomes
+   compress (set_plain_content old new-content) *)
+Theorem C11_change_content_stream_frame :
+  forall O d id c, let d' := change_content_stream O d id c in
+    d_trailer d' = d_trailer d /\ d_max_id d' = d_max_id d /\ map fst (d_objects d') = map fst (d_objects d) /\
+    (forall x, x <> id -> lookup (d_objects d') x = lookup (d_objects d) x) /\
+    (forall sd c0, lookup (d_objects d) id = Some (OStream sd c0) ->
+                   lookup (d_objects d') id = Some (stream_obj (rewritten_stream O sd c0 c))) /\
+    ((forall sd c0, lookup (d_objects d) id <> Some (OStream sd c0)) -> d' = d).
+Proof. exact ccs_frame. Qed.
+
+(* every plain page shows its items with the rewritten stream decoding to the new stream: pages that do not name it are
+   unchanged, a page whose only item it is shows exactly that *)
+Theorem C11_change_content_stream_content :
+  forall (decode : dict -> bytes -> bytes) O d id c sd c0,
+    lookup (d_objects d) id = Some (OStream sd c0) ->
+    let s' := rewritten_stream O sd c0 c in
+    let d' := change_content_stream O d id c in
+    forall q qd, lookup (d_objects d) q = Some (ODict qd) -> plain_contents (d_objects d) qd ->
+      lookup (d_objects d') q = Some (ODict qd) /\
+      page_content decode (d_objects d') q = expect decode (d_objects d) id (decode (s_dict s') (s_content s')) (cur_list qd) /\
+      (~ In (ORef (fst id) (snd id)) (cur_list qd) ->
+         page_content decode (d_objects d') q = page_content decode (d_objects d) q) /\
+      (cur_list qd = [ORef (fst id) (snd id)] ->
+         page_content decode (d_objects d') q = Some (decode (s_dict s') (s_content s'))).
+Proof. exact ccs_content. Qed.
+
+(* change_page_content on a plain page with a Contents entry succeeds; the page then shows exactly what the ONE stream
+   written decodes to (the old stream rewritten in place, or a fresh stream when Contents is an array of 0 or >= 2 items);
+   every other plain page that does not name the rewritten stream is unchanged; the trailer is unchanged *)
+Theorem C11_change_page_content_content :
+  forall (decode : dict -> bytes -> bytes) O d page pd c x,
+    doc_wf d -> alloc_ok d -> (d_max_id d < U32_MAX)%N ->
+    lookup (d_objects d) page = Some (ODict pd) -> plain_contents (d_objects d) pd ->
+    dict_get pd K_Contents = Some x ->
+    exists d' sd' c',
+      change_page_content O d page c = (d', OOk) /\
+      ((exists id sd c0, rewritten pd = Some id /\ lookup (d_objects d) id = Some (OStream sd c0) /\
+                         OStream sd' c' = stream_obj (rewritten_stream O sd c0 c)) \/
+       (rewritten pd = None /\ OStream sd' c' = new_stream c)) /\
+      page_content decode (d_objects d') page = Some (decode sd' c') /\
+      (forall q qd, q <> page -> lookup (d_objects d) q = Some (ODict qd) -> plain_contents (d_objects d) qd ->
+                    unshared pd qd ->
+                    page_content decode (d_objects d') q = page_content decode (d_objects d) q) /\
+      d_trailer d' = d_trailer d.
+Proof. exact cpc_content. Qed.
+
+(* ... and read with the crate's own decoder (decompressed_content, C09) the page shows EXACTLY the new content; the two
+   facts about flate2 concern this one content (as in C09_compress_unfiltered_lossless); [dict_wf]: no duplicate keys, the
+   representation invariant of the IndexMap behind Dictionary *)
+Theorem C11_change_page_content_shows_new_content :
+  forall O d page pd c x,
+    doc_wf d -> alloc_ok d -> (d_max_id d < U32_MAX)%N ->
+    (forall id sd c0, lookup (d_objects d) id = Some (OStream sd c0) -> FilterProofsDict.dict_wf sd) ->
+    o_inflate O (o_deflate O c) = c -> o_deflate O c <> [] ->
+    lookup (d_objects d) page = Some (ODict pd) -> plain_contents (d_objects d) pd ->
+    dict_get pd K_Contents = Some x ->
+    exists d',
+      change_page_content O d page c = (d', OOk) /\
+      page_content (decode_c09 O) (d_objects d') page = Some c /\
+      (forall q qd, q <> page -> lookup (d_objects d) q = Some (ODict qd) -> plain_contents (d_objects d) qd ->
+                    unshared pd qd ->
+                    page_content (decode_c09 O) (d_objects d') q = page_content (decode_c09 O) (d_objects d) q) /\
+      d_trailer d' = d_trailer d.
+Proof. exact cpc_shows_new_content. Qed.
+
+Theorem C11_change_page_content_no_contents :
+  forall O d page pd c, lookup (d_objects d) page = Some (ODict pd) -> dict_get pd K_Contents = None ->
+    change_page_content O d page c = (d, OErr).
+Proof. exact cpc_no_contents. Qed.
+
+Theorem C11_add_to_page_content_content :
+  forall (decode : dict -> bytes -> bytes) d page pd ops,
+    doc_wf d -> alloc_ok d -> (d_max_id d < U32_MAX)%N ->
+    lookup (d_objects d) page = Some (ODict pd) -> plain_contents (d_objects d) pd ->
+    let c := Writer.encode_content ops in
+    exists d' old,
+      add_to_page_content d page ops = (d', OOk) /\
+      page_content decode (d_objects d) page = Some old /\
+      page_content decode (d_objects d') page = Some (old ++ decode (new_dict c) c) /\
+      (forall q qd, q <> page -> lookup (d_objects d) q = Some (ODict qd) -> plain_contents (d_objects d) qd ->
+                    page_content decode (d_objects d') q = page_content decode (d_objects d) q) /\
+      d_trailer d' = d_trailer d.
+Proof. exact atpc_content. Qed.
+
+(* non-vacuity of the hypotheses of C11_change_page_content_shows_new_content *)
+Theorem C11_change_page_content_example :
+  doc_wf ex_doc /\ alloc_ok ex_doc /\ (d_max_id ex_doc < U32_MAX)%N /\
+  (forall id sd c0, lookup (d_objects ex_doc) id = Some (OStream sd c0) -> FilterProofsDict.dict_wf sd) /\
+  o_inflate O0 (o_deflate O0 (bs "BT ET")) = bs "BT ET" /\ o_deflate O0 (bs "BT ET") <> [] /\
+  lookup (d_objects ex_doc) (3, 0)%N = Some (ODict ex_page3) /\ plain_contents (d_objects ex_doc) ex_page3 /\
+  dict_get ex_page3 K_Contents = Some (ORef 5 0) /\
+  page_content (decode_c09 O0) (d_objects (fst (change_page_content O0 ex_doc (3, 0)%N (bs "BT ET")))) (3, 0)%N = Some (bs "BT ET").
+Proof. exact cpc_example. Qed.
+
+(* ------------------------------------------------------------------------------------------ *)
+(* I_resources (the code after the repair of C11-resources-shadow): after the call EVERY node q of EVERY object graph --
+   cyclic Parent chains, reference chains, objects that play several roles at once -- can still use every resource name
+   (category, name) it could use before; effective resources = nearest Resources up the Parent chain (Spec/AbstractDoc.v).
+   No class is excluded for get_or_create_resources and add_graphics_state. *)
+Theorem C11_resources_get_or_create :
+  forall d page d' loc, get_or_create_resources d page = (d', loc) ->
+    forall q, res_le (effective_resources (d_objects d) q) (effective_resources (d_objects d') q).
+Proof. exact gocr_resources. Qed.
+
+Theorem C11_resources_add_graphics_state :
+  forall d page nm g d' r, add_graphics_state d page nm g = (d', r) ->
+    forall q, res_le (effective_resources (d_objects d) q) (effective_resources (d_objects d') q).
+Proof. exact add_graphics_state_resources. Qed.
+
+(* add_xobject: proved when the XObject entry of the page's resource dictionary is absent or a direct dictionary.
+   MISSING: the XObject entry is an indirect reference ([category_indirect]); the call then writes the name into a separate
+   object, which in an ill-typed graph may also serve as a page-tree node or as somebody's resource dictionary (then a
+   name "Parent" / an existing category name would overwrite an entry that matters); needs a typing hypothesis.  Decided
+   on the implementation by the harness for every generated case (seeded mutant m3 lives there). *)
+Theorem C11_resources_add_xobject_partial :
+  forall d page nm x d' r, ~ category_indirect d page K_XObject ->
+    add_xobject d page nm x = (d', r) ->
+    forall q, res_le (effective_resources (d_objects d) q) (effective_resources (d_objects d') q).
+Proof. exact add_xobject_resources_partial. Qed.
+
+Theorem C11_resources_example : ~ category_indirect ex_doc (3, 0)%N K_XObject.
+Proof. exact res_example. Qed.
 
 (* ------------------------------------------------------------------------------------------ *)
 (* non-vacuity: a concrete document with a page tree and a program that adds a nested bookmark forest (1 > 2 > 3, and 4),
@@ -284,5 +415,16 @@ Print Assumptions C11_content_shared_refuted.
 Print Assumptions C11_content_indirect_refuted.
 Print Assumptions C11_add_page_contents_content.
 Print Assumptions C11_content_example_partial.
+Print Assumptions C11_change_content_stream_frame.
+Print Assumptions C11_change_content_stream_content.
+Print Assumptions C11_change_page_content_content.
+Print Assumptions C11_change_page_content_shows_new_content.
+Print Assumptions C11_change_page_content_no_contents.
+Print Assumptions C11_add_to_page_content_content.
+Print Assumptions C11_change_page_content_example.
+Print Assumptions C11_resources_get_or_create.
+Print Assumptions C11_resources_add_graphics_state.
+Print Assumptions C11_resources_add_xobject_partial.
+Print Assumptions C11_resources_example.
 Print Assumptions C11_example.
 Print Assumptions C11_example_doc_ops.
